@@ -679,6 +679,10 @@ def unstack(x, /, *, axis=0):
         dtypes=[dtype] * n_arrays,
         chunkss=[chunks] * n_arrays,
         target_stores=[None] * n_arrays,  # filled in by general_blockwise
+        # every block of x along the axis is read (and held) by one task; the formula
+        # counts one block (and its read buffer), so account for the others here
+        extra_projected_mem=2 * x.chunkmem * (x.numblocks[axis] - 1),
+        num_input_blocks=(x.numblocks[axis],),
         axis=axis,
     )
 
